@@ -20,6 +20,7 @@ type c08ex struct {
 	base
 	a, b   *world.Chan
 	direct bool
+	mode   string // d: direct plain (VT), g: direct grouped (VT_G1), r: reverse plain (CC), h: reverse grouped (CC_G1)
 	ids    map[string]string // sym -> swap id (hex)
 	begun  map[string]bool
 }
@@ -34,6 +35,12 @@ func (e *c08ex) u(name string) *simpeer.User {
 }
 
 func (e *c08ex) token() string {
+	switch e.mode {
+	case "g":
+		return "VT_G1"
+	case "h":
+		return "CC_G1"
+	}
 	if e.direct {
 		return "VT"
 	}
@@ -66,7 +73,8 @@ func (e *c08ex) Exec(op string) string {
 		if len(w) != 2 {
 			return "bad-op"
 		}
-		e.direct = w[1] == "d"
+		e.mode = w[1]
+		e.direct = w[1] == "d" || w[1] == "g"
 		e.a = wd.AddChannel("VT", world.Options{})
 		e.b = wd.AddChannel("CC", world.Options{})
 		e.b.L.State[rawKey(e.b, "2d", "VT")] = big.NewInt(1000000).Bytes()
@@ -86,10 +94,13 @@ func (e *c08ex) Exec(op string) string {
 		if len(w) != 3 || e.u(w[1]) == nil {
 			return "bad-op"
 		}
+		if e.mode == "g" {
+			return okErr(e.a.Do(wd.Issuer, "emitIndustrial", e.u(w[1]).Addr, w[2], "G1"))
+		}
 		if e.direct {
 			return okErr(e.a.Do(wd.Issuer, "emit", e.u(w[1]).Addr, w[2]))
 		}
-		return okErr(e.a.Do(wd.Issuer, "emitAllowed", e.u(w[1]).Addr, "CC", w[2]))
+		return okErr(e.a.Do(wd.Issuer, "emitAllowed", e.u(w[1]).Addr, e.token(), w[2]))
 	case "begin":
 		if len(w) != 5 || e.u(w[2]) == nil {
 			return "bad-op"
@@ -168,14 +179,26 @@ func (e *c08ex) Exec(op string) string {
 		return okErr(e.b.Do(wd.Users[2], "swapCancel", e.id(w[1])))
 	case "dump":
 		var as, bs []string
+		stray := new(big.Int)
 		for _, n := range []string{"u0", "u1"} {
 			addr := e.u(n).Addr
-			if e.direct {
+			switch e.mode {
+			case "d":
 				as = append(as, n+"="+bal(e.a, "balanceOf", addr))
 				bs = append(bs, n+"="+bal(e.b, "allowedBalanceOf", addr, "VT"))
-			} else {
+			case "g":
+				as = append(as, n+"="+groupBal(e.a, addr))
+				bs = append(bs, n+"="+bal(e.b, "allowedBalanceOf", addr, "VT_G1"))
+				stray.Add(stray, bigOf(bal(e.a, "balanceOf", addr)))
+				stray.Add(stray, bigOf(bal(e.b, "allowedBalanceOf", addr, "VT")))
+			case "r":
 				as = append(as, n+"="+bal(e.a, "allowedBalanceOf", addr, "CC"))
 				bs = append(bs, n+"="+bal(e.b, "balanceOf", addr))
+			default:
+				as = append(as, n+"="+bal(e.a, "allowedBalanceOf", addr, "CC_G1"))
+				bs = append(bs, n+"="+groupBal(e.b, addr))
+				stray.Add(stray, bigOf(bal(e.b, "balanceOf", addr)))
+				stray.Add(stray, bigOf(bal(e.a, "allowedBalanceOf", addr, "CC")))
 			}
 		}
 		gA := new(big.Int).SetBytes(e.a.L.State[rawKey(e.a, "2d", "CC")]).String()
@@ -194,7 +217,7 @@ func (e *c08ex) Exec(op string) string {
 				rb = append(rb, s)
 			}
 		}
-		return fmt.Sprintf("A:%s;B:%s;gA=%s;gB=%s;recA=%s;recB=%s", strings.Join(as, ","), strings.Join(bs, ","), gA, gB, orDash(ra, ","), orDash(rb, ","))
+		return fmt.Sprintf("A:%s;B:%s;gA=%s;gB=%s;recA=%s;recB=%s;x=%s", strings.Join(as, ","), strings.Join(bs, ","), gA, gB, orDash(ra, ","), orDash(rb, ","), stray.String())
 	}
 	return "bad-op"
 }
@@ -205,7 +228,7 @@ func genC08(c *Cfg, emit func([]string)) {
 		depth = 5
 	}
 	alpha := []string{"begin s1 u0 45 batch", "answer s1 u0 45", "done s1 right", "done s1 wrong", "rdone s1 right", "rdone s1 wrong", "cancelA s1", "cancelB s1", "doneA s1 right"}
-	for _, dir := range []string{"d", "r"} {
+	for _, dir := range []string{"d", "r", "g", "h"} {
 		var rec func(prefix []string, d int)
 		rec = func(prefix []string, d int) {
 			if d == depth {
@@ -220,7 +243,9 @@ func genC08(c *Cfg, emit func([]string)) {
 				rec(append(prefix[:len(prefix):len(prefix)], a), d+1)
 			}
 		}
-		rec(nil, 0)
+		if c.Thorough() || dir == "d" || dir == "r" {
+			rec(nil, 0)
+		}
 		if !c.Thorough() {
 			for i := 0; i < 700; i++ {
 				h := []string{"reset " + dir, "fund u0 100"}
@@ -238,7 +263,7 @@ func genC08(c *Cfg, emit func([]string)) {
 		nRand = 20000
 	}
 	for i := 0; i < nRand; i++ {
-		dir := []string{"d", "r"}[c.Rng.Intn(2)]
+		dir := []string{"d", "r", "g", "h"}[c.Rng.Intn(4)]
 		h := []string{"reset " + dir, "fund u0 100", "fund u1 60"}
 		type sw struct {
 			sym, user string
